@@ -1079,6 +1079,52 @@ class RunGen:
                 "chunk": g.choice([512, 4096, 65536, 1 << 20]),
                 "texts": texts, "steps": steps, "classes": dict(classes)}
 
+    def feature_jobs(self, root):
+        """Pattern-feature enumeration: every extractor whose pattern has a
+        non-ASCII character (`§?`, `¶`, `’`, classes like `[§|s]`), a `{,n}`
+        repetition or a flag is exercised on *its own* atlas fragments and on
+        systematic variants of them (sign doubled, sign removed, space after the
+        sign removed, letter case changed, multi-byte neighbours).  Differential
+        only (no lifetimes).  A rare pattern feature is thereby reached by
+        construction instead of by the luck of the swarm."""
+        from eyecite.tokenizers import EXTRACTORS
+
+        feat = []
+        for i, e in enumerate(EXTRACTORS):
+            if any(ord(c) > 127 for c in e.regex) or "{," in e.regex or e.flags:
+                feat.append(i)
+        fset = set(feat)
+        by_ext = {}
+        for a in self.matching:
+            for i in a["x"]:
+                if i in fset:
+                    by_ext.setdefault(i, []).append(a)
+        jobs = []
+        chunk = 120
+        for c0 in range(0, len(feat), chunk):
+            part = feat[c0:c0 + chunk]
+            ext = sorted(set(part) | set(self.special))
+            texts = []
+            for i in part:
+                for a in by_ext.get(i, [])[:2]:
+                    t = a["t"]
+                    vs = [t, "“" + t + "”", t + "é", "—" + t]
+                    for sign in ("§", "¶"):
+                        if sign in t:
+                            vs += [t.replace(sign, sign * 2, 1), t.replace(sign + " ", sign, 1),
+                                   t.replace(sign, "", 1), t.replace(sign, sign + sign + " ", 1)]
+                    if "’" in t:
+                        vs += [t.replace("’", "'"), t.replace("’", "")]
+                    vs += [t.upper(), t.lower()]
+                    for v in vs:
+                        if v not in texts and textgen.in_c14_domain(v):
+                            texts.append(v)
+            for t0 in range(0, len(texts), 80):
+                jobs.append({"seed": seeds.h64(root, "feature", c0, t0), "kind": "feature",
+                             "cell": f"feature-{c0}-{t0}", "ext": ext, "chunk": 65536,
+                             "texts": texts[t0:t0 + 80], "classes": {}, "steps": []})
+        return jobs
+
     def grid(self, root):
         """The complete fault-class grid against a freshly written cache."""
         st = seeds.Streams(seeds.h64(root, "grid"))
@@ -1254,6 +1300,8 @@ class Checker:
             self.classes[k] += v
         for t in job["texts"]:
             self.texts_seen.add(seeds.h64(t))
+        if job["kind"] == "feature":
+            self.features_done = getattr(self, "features_done", 0) + 1
         if job["kind"] == "probe":
             self.probes_done = getattr(self, "probes_done", 0) + 1
         if job["kind"] == "grid":
@@ -1381,6 +1429,9 @@ class Checker:
                      "exhaustive": self.grid_cells > 0 and self.grid_cells == self.grid_done,
                      "what": "a database of another extractor list / the same list permuted / the same expressions with other flags left in the directory followed by a crash before and after each of the first 10 storage operations of the next lifetime; truncation at every length class, zero-filled tails, every single byte of the 32-byte header flipped, foreign values per header field, body flips/bytes, garbage, zeros, appended bytes, lost file, removed/empty directory, a crash before and after each of the first 8 storage operations, a crash after each write-length class, ENOSPC budgets -- each against a cache freshly written by the real code",
                      "outcomes_sample": dict(list(sorted(self.grid_outcomes.items()))[:12])},
+            "pattern_feature_enumeration": {
+                "jobs": getattr(self, "feature_cells", 0), "completed": getattr(self, "features_done", 0),
+                "what": "every extractor with a non-ASCII character, a {,n} repetition or a flag in its pattern, on its own atlas fragments and systematic variants (sign doubled/removed/unspaced, apostrophe variants, letter case, multi-byte neighbours)"},
             "simulated_runs": self.runs,
             "runs_by_kind": dict(self.kinds),
             "runs_per_hour": int(self.runs / max(wall, 1e-6) * 3600),
@@ -1462,7 +1513,9 @@ def run(tier, verif_seed, log=print):
             if idx:
                 pj["ext"] = idx
         probes.append(pj)
-    ck.phase(grid + probes, None, LIFE_TIMEOUT * 5, may_stop=False)
+    features = gen.feature_jobs(ck.root)
+    ck.feature_cells = len(features)
+    ck.phase(grid + probes + features, None, LIFE_TIMEOUT * 5, may_stop=False)
     log(f"[C14] grid: {ck.grid_done}/{ck.grid_cells} cells, lifetimes={ck.tot['lifetimes']}, "
         f"suspects={len(ck.suspects)} ({time.monotonic() - t0:.1f}s)")
     jobs = (gen.run(seeds.run_seed(ck.root, i)) for i in range(ck.cfg["swarm"]))
